@@ -213,7 +213,7 @@ func checkMalformed(mc MCase, ctx *vcommon.Ctx) *vcommon.Failure {
 		key = keyLazyBuild
 	}
 	first := vcommon.Failf(key, "malformed schema (element %s at %s) is accepted at construction\n%s", mc.Bad, strings.Join(mc.Path, ">"), show)
-	if !ctx.Known(key) {
+	if !ctx.Known(key) && !ctx.Replay {
 		// enrich the message with what validation then does
 		for _, in := range mc.Inputs {
 			expr := lispValue(in, false)
@@ -225,6 +225,7 @@ func checkMalformed(mc MCase, ctx *vcommon.Ctx) *vcommon.Failure {
 		}
 		return first
 	}
+	// known (or replaying): go on to what validation does with the schema
 	ctx.Class("known/" + key)
 	for _, in := range mc.Inputs {
 		expr := lispValue(in, false)
